@@ -212,6 +212,13 @@ func c17Variants(base *c17Spec, bi int) []c17Variant {
 		return -1, ""
 	}
 	tokI, tokN := find("token")
+	tokN2 := "" // a second token, for faults that need two different ones
+	for _, d := range base.Decls {
+		if n, ok := strings.CutPrefix(d.Tag, "token:"); ok && n != tokN {
+			tokN2 = n
+			break
+		}
+	}
 	macI, macN := find("macro")
 	extI, extN := find("external")
 	ruleI, ruleN := find("rule")
@@ -319,6 +326,14 @@ func c17Variants(base *c17Spec, bi int) []c17Variant {
 		addLex("two-discards", "@frag "+freshPat()+" @discard @discard", st, -1)
 		addLex("two-emits", "@frag "+freshPat()+" @emit("+tokN+") @emit("+tokN+")", st, -1)
 		addLex("discard-and-emit", "@frag "+freshPat()+" @discard @emit("+tokN+")", st, -1)
+		addLex("two-discards-apart", "@frag "+freshPat()+" @discard @push_mode() @discard", st, -1)
+		addLex("two-emits-apart", "@frag "+freshPat()+" @emit("+tokN+") @push_mode() @emit("+tokN+")", st, -1)
+		if tokN2 != "" {
+			addLex("two-emits-different", "@frag "+freshPat()+" @emit("+tokN+") @emit("+tokN2+")", st, -1)
+			addLex("two-emits-different-reversed", "@frag "+freshPat()+" @emit("+tokN2+") @emit("+tokN+")", st, -1)
+			addLex("two-emits-different-apart", "@frag "+freshPat()+" @emit("+tokN+") @push_mode() @emit("+tokN2+")", st, -1)
+			addLex("emit-discard-emit", "@frag "+freshPat()+" @emit("+tokN+") @discard @emit("+tokN2+")", st, -1)
+		}
 		addLex("emit-and-discard", "@frag "+freshPat()+" @emit("+tokN+") @push_mode() @discard", st, -1)
 		// empty literal
 		addLex("empty-literal-token", "EL = ''", st, -1)
